@@ -432,6 +432,10 @@ class SymExec:
                 return self.expr(ks[1] if cc != 0 else ks[2], st)
             a = self.expr(ks[1], st)
             b = self.expr(ks[2], st)
+            if getattr(self, "ternary_model", None) is not None:
+                r = self.ternary_model(c, a, b, n, st, self)
+                if r is not None:
+                    return r
             if isinstance(a, Rat) and isinstance(b, Rat) and isinstance(c, Rat):
                 # c is assumed to be a 0/1 flag: c ? a : b  ==  c*a + (1-c)*b
                 return c * a + (Rat(Poly.const(1)) - c) * b
